@@ -483,9 +483,9 @@ fn gcd(a: usize, b: usize) -> usize {
 
 fn subs() -> Vec<Sub> {
     vec![
-        gen_sub("many_sources", many_sources, |t| t.pick(40, 600), check),
-        gen_sub("regular", regular, |t| t.pick(30_000, 600_000), check),
-        gen_sub("hermes", hermes, |t| t.pick(8_000, 200_000), check),
+        gen_sub("many_sources", many_sources, |t| t.pick(120, 600), check),
+        gen_sub("regular", regular, |t| t.pick(100_000, 600_000), check),
+        gen_sub("hermes", hermes, |t| t.pick(30_000, 200_000), check),
     ]
 }
 
